@@ -121,10 +121,26 @@ func documents() []mDoc {
 			{Key: "Architecture", First: "any"},
 		},
 	}
+	three := [][]mField{
+		{
+			{Key: "Source", First: "hello"},
+			{Key: "Version", First: "1.0-1"},
+		},
+		{ // more fields than the paragraph before, all with other names
+			{Key: "Package", First: "hello-bin"},
+			{Key: "Architecture", First: "any"},
+			{Key: "Depends", First: "libc6 (>= 2.36)"},
+			{Key: "Description", First: "says hello", Cont: []string{"a longer text", "", "end"}},
+		},
+		{ // fewer fields than the paragraph before
+			{Key: "Package", First: "hello-doc"},
+		},
+	}
 	return []mDoc{
 		{Name: "one-paragraph", EOL: "\n", Paras: one},
 		{Name: "two-paragraphs-multiline", EOL: "\n", Paras: two},
 		{Name: "two-paragraphs-multiline-crlf", EOL: "\r\n", Paras: two},
+		{Name: "three-paragraphs-different-fields", EOL: "\n", Paras: three},
 	}
 }
 
@@ -193,6 +209,7 @@ type In struct {
 	Fault     *Fault   // nil: untampered
 	Want      []Para   // the paragraphs of the signed text, from the model
 	Hist      *Hist    `json:",omitempty"` // Case history: one keyring variable passed by the same pointer across several reads
+	Inter     *Inter   `json:",omitempty"` // Case interleave: several readers, operations interleaved
 }
 
 const armourPrefix = "-----BEGIN PGP "
@@ -284,7 +301,7 @@ func observe(in In, doc []byte) (o obs) {
 func observeRing(entry string, doc []byte, ring *openpgp.EntityList) (o obs) {
 	p, msg := mc.Guard(func() {
 		switch entry {
-		case "decoder":
+		case "decoder", "decoder-loop":
 			dec, err := control.NewDecoder(bytes.NewReader(doc), ring)
 			if err != nil {
 				o.ctorErr = err.Error()
@@ -292,7 +309,29 @@ func observeRing(entry string, doc []byte, ring *openpgp.EntityList) (o obs) {
 			}
 			o.signer, o.signerEnt = gen.CSFingerprint(dec.Signer()), dec.Signer()
 			var out []wrap
-			err = dec.Decode(&out)
+			if entry == "decoder" {
+				err = dec.Decode(&out) // all paragraphs into a slice
+			} else {
+				// one Decode per paragraph; the structs are kept and looked at only after the end
+				var kept []*wrap
+				for i := 0; ; i++ {
+					w := new(wrap)
+					if err = dec.Decode(w); err != nil {
+						break
+					}
+					kept = append(kept, w)
+					if i > 10000 {
+						err = fmt.Errorf("harness: more than 10000 paragraphs")
+						break
+					}
+				}
+				if err == io.EOF {
+					err = nil
+				}
+				for _, w := range kept {
+					out = append(out, *w)
+				}
+			}
 			for _, w := range out {
 				o.delivered = append(o.delivered, toPara(w.Paragraph))
 			}
@@ -302,26 +341,41 @@ func observeRing(entry string, doc []byte, ring *openpgp.EntityList) (o obs) {
 			if s := gen.CSFingerprint(dec.Signer()); s != o.signer {
 				o.signer = s + " (changed while reading, was " + o.signer + ")"
 			}
-		default:
+		default: // "reader": Next loop; "reader-all": All()
 			pr, err := control.NewParagraphReader(bytes.NewReader(doc), ring)
 			if err != nil {
 				o.ctorErr = err.Error()
 				return
 			}
 			o.signer, o.signerEnt = gen.CSFingerprint(pr.Signer()), pr.Signer()
-			for i := 0; ; i++ {
-				para, err := pr.Next()
-				if err == io.EOF {
-					break
+			if entry == "reader-all" {
+				all, err := pr.All()
+				for _, p := range all {
+					o.delivered = append(o.delivered, toPara(p))
 				}
 				if err != nil {
 					o.readErr = err.Error()
-					break
 				}
-				o.delivered = append(o.delivered, toPara(*para))
-				if i > 10000 {
-					o.readErr = "harness: more than 10000 paragraphs"
-					break
+			} else {
+				// every returned *Paragraph is KEPT and only looked at after the end of the read
+				var kept []*control.Paragraph
+				for i := 0; ; i++ {
+					para, err := pr.Next()
+					if err == io.EOF {
+						break
+					}
+					if err != nil {
+						o.readErr = err.Error()
+						break
+					}
+					kept = append(kept, para)
+					if i > 10000 {
+						o.readErr = "harness: more than 10000 paragraphs"
+						break
+					}
+				}
+				for _, p := range kept {
+					o.delivered = append(o.delivered, toPara(*p))
 				}
 			}
 			if s := gen.CSFingerprint(pr.Signer()); s != o.signer {
@@ -411,6 +465,9 @@ type verdict struct {
 func check(scen string, in In) verdict {
 	if in.Case == "history" {
 		return checkHist(scen, in)
+	}
+	if in.Case == "interleave" {
+		return checkInter(scen, in)
 	}
 	if !in.Fault.valid(len(in.Orig)) {
 		return verdict{class: "invalid-input"}
@@ -505,7 +562,13 @@ func check(scen string, in In) verdict {
 		res.class = "rejected"
 	}
 	if res.positive && !o.success() {
+		// "reading succeeds … the paragraphs returned are exactly those of the signed text": a validly signed
+		// document whose key is in the keyring must be read (that the document IS valid is established by the
+		// reference implementation in selfCheck, not by the library)
 		res.failed = true
+		res.class = "unsound"
+		res.v = mkV(scen, "valid-signed-document-is-read-exactly", in, doc,
+			fmt.Sprintf("success with the signed paragraphs and signer %s: the document is validly signed by %s, which is in the keyring %v", in.SignerFpr, in.Signer, in.RingNames), o)
 	}
 	return res
 }
@@ -695,7 +758,7 @@ func Run(r *mc.Run) {
 		return
 	}
 	docs := documents()
-	entries := []string{"reader", "decoder"}
+	entries := []string{"reader", "reader-all", "decoder", "decoder-loop"}
 	rings := []ringSpec{{kind: "empty"}, {kind: "nil-list"}, {kind: "list", keys: []*key{K1}}, {kind: "list", keys: []*key{K2}},
 		{kind: "list", keys: []*key{K1, K2}}, {kind: "nil"}}
 
@@ -750,7 +813,9 @@ func Run(r *mc.Run) {
 			st.Class(res.class)
 			st.Violate(res.v)
 			if !res.o.success() || !parasEqual(res.o.delivered, in.Want) {
-				r.HarnessError("document model disagrees with the reader on unsigned %s via %s: %s", c.d.Name, c.e, res.o)
+				// not a clause of C11 (unsigned parsing is C07's business) and not a harness fault either (the model is
+				// self-checked against literals): recorded only; the signed positive cases report the same defect
+				st.Class("unsigned:paragraphs-differ-from-model(recorded only)")
 			}
 			if i%17 == 0 && st.WantSample() {
 				st.Sample(map[string]interface{}{"doc": c.d.Name, "entry": c.e, "keyring": c.r.label(), "signer": res.o.signer, "outcome": res.class})
@@ -793,9 +858,8 @@ func Run(r *mc.Run) {
 		st.Violate(res.v)
 		if res.failed {
 			vmu.Lock()
-			vacuous = true
+			vacuous = true // a positive case failed: reported as a VIOLATION (valid-signed-document-is-read-exactly); flagged in the evidence too
 			vmu.Unlock()
-			r.HarnessError("vacuous: untampered %s signed by %s does not verify with keyring %s via %s: %s", c.sd.m.Name, c.sd.signer.name, c.r.label(), c.e, res.o)
 		}
 		if i%13 == 0 && st.WantSample() {
 			st.Sample(map[string]interface{}{"doc": c.sd.m.Name, "signer": c.sd.signer.name, "keyring": c.r.label(), "entry": c.e, "outcome": cl, "reported_signer": res.o.signer})
@@ -805,7 +869,8 @@ func Run(r *mc.Run) {
 
 	// ---- scenario 3: tampering, complete for single faults, + splices
 	auditKeyrings(r, signed, K1, K2, entries)
-	keyringHistories(r, docs[0], K1, K2, entries)
+	keyringHistories(r, docs[0], K1, K2, []string{"reader", "decoder"})
+	interleavings(r, docs, K1, K2)
 	subs := subsQuick
 	tamperRings := []ringSpec{{kind: "list", keys: []*key{K1}}}
 	if !r.Quick() {
@@ -893,8 +958,39 @@ func Run(r *mc.Run) {
 
 // selfCheck validates the harness' own machinery: canonical-form model vs clearsign.Decode, region finder,
 // and (if installed) gpgv on our assembled documents. Never decides the property.
+// referenceVerifies: the REFERENCE implementation (x/crypto clearsign + openpgp, not the library under test)
+// accepts doc as signed by k.
+func referenceVerifies(doc []byte, k *key) bool {
+	blk, _ := clearsign.Decode(doc)
+	if blk == nil {
+		return false
+	}
+	el, err := gen.CSReadKeyring([]string{k.armor})
+	if err != nil {
+		return false
+	}
+	signer, err := openpgp.CheckDetachedSignature(el, bytes.NewReader(blk.Bytes), blk.ArmoredSignature.Body)
+	return err == nil && signer != nil && gen.CSFingerprint(signer) == k.fpr
+}
+
 func selfCheck(r *mc.Run, docs []mDoc, signed []signedDoc, K1, K2 *key) {
+	// the document model against hand-written literals (so that "differs from the model" can be held against the library)
+	lit := map[string]string{
+		"one-paragraph":                     `[{"Order":["Source","Version","Maintainer"],"Values":{"Maintainer":"A B \u003ca@b.example\u003e","Source":"hello","Version":"1.0-1"}}]`,
+		"two-paragraphs-multiline":          `[{"Order":["Source","Description","Section"],"Values":{"Description":"short text\nfirst line\n\n- dash item\ntrailing blanks\n","Section":"misc","Source":"hello"}},{"Order":["Package","Architecture"],"Values":{"Architecture":"any","Package":"hello-bin"}}]`,
+		"three-paragraphs-different-fields": `[{"Order":["Source","Version"],"Values":{"Source":"hello","Version":"1.0-1"}},{"Order":["Package","Architecture","Depends","Description"],"Values":{"Architecture":"any","Depends":"libc6 (\u003e= 2.36)","Description":"says hello\na longer text\n\nend\n","Package":"hello-bin"}},{"Order":["Package"],"Values":{"Package":"hello-doc"}}]`,
+	}
+	lit["two-paragraphs-multiline-crlf"] = lit["two-paragraphs-multiline"]
+	for _, d := range docs {
+		b, _ := json.Marshal(d.want())
+		if w, ok := lit[d.Name]; !ok || string(b) != w {
+			r.HarnessError("self-check: document model of %s is %s, hand-written expectation %s", d.Name, b, w)
+		}
+	}
 	for _, sd := range signed {
+		if !referenceVerifies(sd.bytes, sd.signer) {
+			r.HarnessError("self-check: the reference implementation does not verify our %s signed by %s", sd.m.Name, sd.signer.name)
+		}
 		blk, _ := clearsign.Decode(sd.bytes)
 		if blk == nil {
 			r.HarnessError("self-check: clearsign.Decode cannot read our %s", sd.m.Name)
